@@ -278,7 +278,7 @@ pub fn run_c08(ctx: &Ctx) -> i32 {
     let mut p2_alpha: Vec<Step> = vec![];
     for (ans, readable) in [(Ans::TrackA, true), (Ans::TrackA, false), (Ans::TrackB, true), (Ans::Unsync, true), (Ans::Stale, true), (Ans::Silent, true)] {
         for gap in [1000i64, 5100] {
-            p2_alpha.push(Step { ans, phc_readable: readable, gap_ms: gap, latency_ms: 0, phc_read_errno: 0 });
+            p2_alpha.push(Step { ans, phc_readable: readable, gap_ms: gap, latency_ms: 0, phc_read_errno: 0, wall_step_ms: 0 });
         }
     }
     let p2_tails = sequences(&p2_alpha, p2_depth - 1);
@@ -571,7 +571,13 @@ pub fn run_c10(ctx: &Ctx) -> i32 {
     let chunk = 256;
     let nchunks = (leaps.len() + chunk - 1) / chunk;
     let now = R0;
-    let parts = par::map(nchunks, |ci| {
+    // the fields of a report that the classification must not depend on (stratum, source address, last/RMS
+    // offset, frequencies, skew) come in four variants (pipeline::AUX_VARIANTS); variant 0 gets every leap code,
+    // the others the codes around the documented ones (plus, thorough, every 257th)
+    let naux = pipeline::AUX_VARIANTS.len();
+    let parts = par::map(nchunks * naux, |item| {
+        let (ci, aux) = (item % nchunks, pipeline::AUX_VARIANTS[item / nchunks]);
+        pipeline::set_aux_variant(aux);
         let mut sink = Sink::new();
         let mut n = 0u64;
         let mut nontrivial = 0u64;
@@ -584,6 +590,9 @@ pub fn run_c10(ctx: &Ctx) -> i32 {
         msgs.push(Out::S1.message(now, 0, as_of));
         for &leap in &leaps[ci * chunk..((ci + 1) * chunk).min(leaps.len())] {
             let leap = leap as u16;
+            if aux != 0 && !(leap <= 8 || leap >= 65530 || (tier == Tier::Thorough && leap % 257 == 0)) {
+                continue;
+            }
             for iv in &intervals {
                 let ib = encode_float(*iv);
                 let d = decode_float(ib);
@@ -615,13 +624,14 @@ pub fn run_c10(ctx: &Ctx) -> i32 {
         let total = msgs.len();
         let r = std::panic::catch_unwind(|| pipeline::published_for(msgs, 1000));
         vclock::disarm();
+        pipeline::set_aux_variant(0);
         match r {
             Ok(recs) if recs.len() == total => {
                 for (pi, leap, iv, age, pclass, exp) in expect {
                     n += 1;
                     let got = recs[pi].status;
                     *classes.entry(format!("{}", status_name(got))).or_insert(0) += 1;
-                    let doc = || json!({"check": "C10", "leap_status": leap, "update_interval_s": iv, "reference_time_age_ns": age.to_string(), "status_before": status_name(pclass), "published_status": status_name(got)});
+                    let doc = || json!({"check": "C10", "leap_status": leap, "update_interval_s": iv, "reference_time_age_ns": age.to_string(), "status_before": status_name(pclass), "published_status": status_name(got), "unrelated_report_fields_variant": aux});
                     match exp {
                         Some(e) => {
                             if leap <= 3 || age < 0 {
@@ -730,6 +740,7 @@ pub fn run_c10(ctx: &Ctx) -> i32 {
         ("rule", json!("all leap-status values (step given) x update-interval alphabet x reference-time ages at -1 ns, -1 s, 0, 8I-1ns, 8I, 8I+1ns, floor(8I) s, floor(8I)+1 s, 1e6 s x status before (Synchronized / FreeRunning / Unknown, each after a first synchronised report); all distinct; non-trivial = leap status 0..3 or a future reference time")),
         ("samples", json!(samples)),
         ("leap_status_values", json!(leaps.len())),
+        ("unrelated_report_fields", json!("4 variants of stratum / source address / last offset / RMS offset / frequency / residual frequency / skew (zero; small mixed signs; large positive; extreme encodings): variant 0 with every leap code, the others with leap codes 0..8, 65530..65535 (thorough: and every 257th)")),
         ("leap_step", json!(leap_step)),
         ("update_intervals_s", json!(intervals)),
         ("published_status_classes", json!(classes)),
@@ -763,6 +774,9 @@ pub struct Step {
     /// how an unreadable PHC file fails: 0 = the file does not exist; otherwise the file opens and read(2)
     /// fails with this errno (the way a sysfs attribute fails)
     pub phc_read_errno: i32,
+    /// the realtime clock is stepped by this much (chronyd, an operator) just before this poll; the
+    /// monotonic clock is unaffected
+    pub wall_step_ms: i64,
 }
 
 const ID_A: u32 = 0x50484330;
@@ -796,12 +810,14 @@ fn poller_run(steps: &[Step], phc_cfg: bool, dir: &std::path::Path) -> Result<Ve
         let mut now = m0;
         let mut last_good = m0 - 5 * S;
         let mut out = vec![];
+        let mut real_off: i128 = 0;
         for st in steps {
             now += st.gap_ms as i128 * 1_000_000;
-            vclock::set_times(R0 + (now - m0), now);
+            real_off += st.wall_step_ms as i128 * 1_000_000;
+            vclock::set_times(R0 + (now - m0) + real_off, now);
             let poll_start = now;
             let spec = |id: u32| TrackSpec { ref_id: id, leap: 0, ref_time_ns: R0, offset_bits: encode_float(0.001), delay_bits: encode_float(0.01), disp_bits: encode_float(0.01), interval_bits: encode_float(16.0) };
-            let real_now = R0 + (now - m0);
+            let real_now = R0 + (now - m0) + real_off;
             let answer = match st.ans {
                 Ans::TrackA => Answer::Wire(tracking_wire(&TrackSpec { ref_time_ns: real_now - S, ..spec(ID_A) }, 7)),
                 Ans::TrackB => Answer::Wire(tracking_wire(&TrackSpec { ref_time_ns: real_now - S, ..spec(ID_B) }, 7)),
@@ -864,19 +880,25 @@ pub fn run_c13(ctx: &Ctx) -> i32 {
                 continue; // the PHC file only matters when the report's reference is the PHC
             }
             for g in &gaps {
-                alpha.push(Step { ans, phc_readable, gap_ms: *g, latency_ms: 0, phc_read_errno: 0 });
+                alpha.push(Step { ans, phc_readable, gap_ms: *g, latency_ms: 0, phc_read_errno: 0, wall_step_ms: 0 });
             }
             // the PHC file opens but read(2) fails, with several errno values (one gap)
             if !phc_readable {
                 for e in [libc::EIO, libc::EOPNOTSUPP, libc::EBUSY, libc::ENODEV] {
-                    alpha.push(Step { ans, phc_readable, gap_ms: 1000, latency_ms: 0, phc_read_errno: e });
+                    alpha.push(Step { ans, phc_readable, gap_ms: 1000, latency_ms: 0, phc_read_errno: e, wall_step_ms: 0 });
+                }
+            }
+            // the realtime clock is stepped between polls (one gap): the grace period is a matter of elapsed, not wall, time
+            if phc_readable {
+                for ws in [-4000i64, 4500, -100_000] {
+                    alpha.push(Step { ans, phc_readable, gap_ms: 1000, latency_ms: 0, phc_read_errno: 0, wall_step_ms: ws });
                 }
             }
             // reply-latency deviations (one gap)
-            alpha.push(Step { ans, phc_readable, gap_ms: 1000, latency_ms: 2900, phc_read_errno: 0 });
+            alpha.push(Step { ans, phc_readable, gap_ms: 1000, latency_ms: 2900, phc_read_errno: 0, wall_step_ms: 0 });
             if ctx.tier == Tier::Thorough {
-                alpha.push(Step { ans, phc_readable, gap_ms: 4000, latency_ms: 999, phc_read_errno: 0 });
-                alpha.push(Step { ans, phc_readable, gap_ms: 4000, latency_ms: 1000, phc_read_errno: 0 });
+                alpha.push(Step { ans, phc_readable, gap_ms: 4000, latency_ms: 999, phc_read_errno: 0, wall_step_ms: 0 });
+                alpha.push(Step { ans, phc_readable, gap_ms: 4000, latency_ms: 1000, phc_read_errno: 0, wall_step_ms: 0 });
             }
         }
     }
@@ -899,7 +921,7 @@ pub fn run_c13(ctx: &Ctx) -> i32 {
             let mut steps = vec![alpha[a]];
             steps.extend(t.iter().cloned());
             n += 1;
-            let doc = |k: usize, got: &Vec<String>, exp: &str| json!({"check": "C13", "phc_configured": phc_cfg, "report_field_variant": aux, "steps": steps.iter().map(|s| json!({"answer": format!("{:?}", s.ans), "phc_file_readable": s.phc_readable, "phc_read_errno": s.phc_read_errno, "gap_ms": s.gap_ms, "reply_latency_ms": s.latency_ms})).collect::<Vec<_>>(), "failing_step": k, "observed": got, "expected": exp});
+            let doc = |k: usize, got: &Vec<String>, exp: &str| json!({"check": "C13", "phc_configured": phc_cfg, "report_field_variant": aux, "steps": steps.iter().map(|s| json!({"answer": format!("{:?}", s.ans), "phc_file_readable": s.phc_readable, "phc_read_errno": s.phc_read_errno, "gap_ms": s.gap_ms, "reply_latency_ms": s.latency_ms, "realtime_clock_stepped_by_ms": s.wall_step_ms})).collect::<Vec<_>>(), "failing_step": k, "observed": got, "expected": exp});
             match c13_run(&steps, phc_cfg, &dir) {
                 Ok(res) => {
                     for (k, (got, exp)) in res.iter().enumerate() {
@@ -968,7 +990,7 @@ pub fn run_c13(ctx: &Ctx) -> i32 {
         ("samples", json!([{"steps": [format!("{:?}", alpha[0]), format!("{:?}", alpha[alpha.len() - 1])]}])),
         ("evaluations", json!(n)),
         ("distinct_nontrivial", json!(n)),
-        ("rule", json!("every sequence of the stated depth of (answer kind x PHC file state x gap since the previous poll x reply latency) x PHC configured or not x 4 variants of the report fields no property gives a meaning to (stratum 0/1/2/15, source address, last/RMS offset, frequency, skew), through the real polling loop with the real ClockErrorBoundPoller under virtual time; all distinct")),
+        ("rule", json!("every sequence of the stated depth of (answer kind x PHC file state x gap since the previous poll x reply latency x realtime clock stepped by -4 s / +4.5 s / -100 s before the poll) x PHC configured or not x 4 variants of the report fields no property gives a meaning to (stratum 0/1/2/15, source address, last/RMS offset, frequency, skew), through the real polling loop with the real ClockErrorBoundPoller under virtual time; all distinct")),
         ("depth", json!(depth)),
         ("step_alphabet_size", json!(alpha.len())),
         ("message_classes_observed", json!(classes)),
@@ -984,11 +1006,20 @@ pub fn run_c12(ctx: &Ctx) -> i32 {
     let deltas: Vec<i64> = ctx.tier.pick(vec![0, 1, 1_000_000, 10 * S as i64], vec![0, 1, 2, 999, 1000, 1_000_000, 4_000_000, S as i64, 3 * S as i64, 10 * S as i64, 1000 * S as i64]);
     let lats: Vec<i128> = ctx.tier.pick(vec![0, 10_000_000, 2_900_000_000], vec![0, 1, 1000, 10_000_000, 999_999_999, 1_000_000_000, 2_900_000_000, 10_000_000_000]);
     let mut n = 0u64;
+    let mut n_fault = 0u64;
+    let mut fault_outcomes = [0u64; 3]; // report sent, nothing sent, thread died
     let mut samples = vec![];
     // daemon side
     for d in &deltas {
         for lat in &lats {
             for silent in [false, true] {
+              // fault: None, or "the k-th clock read of the poll fails once" (k over the reads a fault-free poll makes, +1)
+              let mut faults: Vec<Option<u32>> = vec![None];
+              let mut reads_without_fault = 0usize;
+              let mut fi = 0;
+              while fi < faults.len() {
+                let fault = faults[fi];
+                fi += 1;
                 n += 1;
                 let m0 = 5000 * S + 77;
                 vclock::arm(VClock { real_ns: R0, mono_ns: m0, auto_advance_ns: 0, fail_errno: 0, fail_clock: -1 });
@@ -998,12 +1029,43 @@ pub fn run_c12(ctx: &Ctx) -> i32 {
                     c.auto_advance_ns = *d;
                     vclock::set(c);
                     vclock::log_start();
+                    if let Some(k) = fault {
+                        vclock::fail_once(-1, k, libc::EINVAL);
+                    }
                     let spec = TrackSpec { ref_id: 0, leap: 0, ref_time_ns: R0, offset_bits: encode_float(0.001), delay_bits: encode_float(0.01), disp_bits: encode_float(0.01), interval_bits: encode_float(16.0) };
                     let msgs = life.poll_once(None, Query { answer: if silent { Answer::Silent } else { Answer::Wire(tracking_wire(&spec, 1)) }, latency_ns: *lat });
                     (msgs, vclock::log_take())
                 });
                 vclock::disarm();
-                let doc = json!({"check": "C12", "side": "daemon", "advance_per_clock_read_ns": d, "reply_latency_ns": lat.to_string(), "chronyd_silent": silent});
+                let doc = json!({"check": "C12", "side": "daemon", "advance_per_clock_read_ns": d, "reply_latency_ns": lat.to_string(), "chronyd_silent": silent, "clock_read_that_fails_once": fault});
+                if fault.is_some() {
+                    // a transient clock failure may end the poll (error logged, nothing sent) or kill the thread (std's
+                    // Instant panics); what it must not do is produce a report whose as-of was read after the request
+                    n_fault += 1;
+                    match r {
+                        Ok((msgs, log)) => {
+                            let mark = log.iter().position(|e| e.0 == -100).unwrap_or(log.len());
+                            match msgs.first() {
+                                Some(Message::ClockErrorBoundData((_, _, as_of))) => {
+                                    fault_outcomes[0] += 1;
+                                    let a = ts_ns(as_of.tv_sec, as_of.tv_nsec);
+                                    if !log[..mark].iter().any(|e| e.0 >= 0 && e.0 != libc::CLOCK_REALTIME && e.1 == a) {
+                                        sink.add("C12:as-of-not-a-reading-before-the-request".into(), format!("with the clock read number {} of the poll failing once: as-of {a} ns is not a monotonic reading taken before the request was issued (read log {:?}; -100 marks the request, below -200 a failed read)", fault.unwrap(), log), doc.clone());
+                                    }
+                                }
+                                _ => fault_outcomes[1] += 1,
+                            }
+                        }
+                        Err(_) => fault_outcomes[2] += 1,
+                    }
+                    continue;
+                }
+                if let Ok((_, log)) = &r {
+                    reads_without_fault = log.iter().filter(|e| e.0 >= 0).count();
+                    if faults.len() == 1 && (*d == 0 || *d == 1_000_000) && (*lat == 0 || *lat == 10_000_000) {
+                        faults.extend((0..reads_without_fault as u32 + 1).map(Some));
+                    }
+                }
                 match r {
                     Ok((msgs, log)) => {
                         let mark = log.iter().position(|e| e.0 == -100);
@@ -1032,6 +1094,8 @@ pub fn run_c12(ctx: &Ctx) -> i32 {
                     }
                     Err(p) => sink.add("C12:panic".into(), panic_text(p), doc),
                 }
+              }
+              let _ = reads_without_fault;
             }
         }
     }
@@ -1065,7 +1129,7 @@ pub fn run_c12(ctx: &Ctx) -> i32 {
                 vclock::disarm();
                 let doc = json!({"check": "C12", "side": "client", "route": route, "advance_per_clock_read_ns": d, "age_at_first_read_ns": age.to_string(), "clock_read_log": log.iter().map(|e| json!([e.0, e.1.to_string()])).collect::<Vec<_>>()});
                 let is_real = |c: i32| c == libc::CLOCK_REALTIME || c == libc::CLOCK_REALTIME_COARSE;
-                let reads: Vec<(i32, i128)> = log.iter().filter(|e| e.0 != -100).cloned().collect();
+                let reads: Vec<(i32, i128)> = log.iter().filter(|e| e.0 >= 0).cloned().collect();
                 match r {
                     Ok((earliest, latest)) => {
                         let h = (latest - earliest) / 2;
@@ -1116,6 +1180,7 @@ pub fn run_c12(ctx: &Ctx) -> i32 {
         ("distinct_nontrivial", json!(n)),
         ("rule", json!("cross product of (virtual time advance per clock read) x (reply latency) x (chronyd answers / silent) on the daemon side and (advance per read) x (record age) x (API route) on the client side; every read of every clock is logged by the interposed clock_gettime; all cases distinct")),
         ("samples", json!(samples)),
+        ("transient_clock_failures", json!({"cases": n_fault, "rule": "daemon side, for advance 0 / 1 ms per read and latency 0 / 10 ms, answering and silent chronyd: each clock read of the poll in turn fails once (EINVAL)", "report_sent": fault_outcomes[0], "nothing_sent": fault_outcomes[1], "poller_thread_died": fault_outcomes[2]})),
         ("advance_per_read_ns", json!(deltas)),
         ("reply_latency_ns", json!(lats.iter().map(|l| l.to_string()).collect::<Vec<_>>())),
         ("violation_counts_by_class", json!(sink.counts)),
@@ -1176,6 +1241,37 @@ fn replay(ctx: &Ctx, path: &std::path::Path) -> i32 {
                 let mut w = ShmWriter::new(&p).expect("writer");
                 w.write(&r.to_ceb());
                 println!("client status at uptime {} s: {:?}", c["uptime_s"], client_status(&p, None, c["uptime_s"].as_i64().unwrap() as i128 * S).map(status_name));
+            }
+            0
+        }
+        "C10" if c["reference_time_age_ns"].is_string() => {
+            let leap = c["leap_status"].as_u64().unwrap_or(0) as u16;
+            let iv = c["update_interval_s"].as_f64().unwrap_or(1.0);
+            let age: i128 = c["reference_time_age_ns"].as_str().unwrap().parse().unwrap_or(0);
+            let aux = c["unrelated_report_fields_variant"].as_u64().unwrap_or(0) as u8;
+            let prefix = match c["status_before"].as_str().unwrap_or("") {
+                "Unknown" => Out::U,
+                "FreeRunning" => Out::X,
+                _ => Out::S1,
+            };
+            let as_of = libc::timespec { tv_sec: 5000, tv_nsec: 1 };
+            let ib = encode_float(iv);
+            let mut runs = vec![];
+            for _ in 0..2 {
+                pipeline::set_aux_variant(aux);
+                let t = TrackSpec { ref_id: 0, leap, ref_time_ns: R0 - age, offset_bits: encode_float(0.001), delay_bits: encode_float(0.01), disp_bits: encode_float(0.01), interval_bits: ib };
+                let msgs = vec![Out::S1.message(R0, 0, as_of), prefix.message(R0, 0, as_of), Message::ClockErrorBoundData((tracking_of(&t), 0, as_of))];
+                vclock::arm(VClock { real_ns: R0, mono_ns: 5001 * S, auto_advance_ns: 0, fail_errno: 0, fail_clock: -1 });
+                let r = std::panic::catch_unwind(|| pipeline::published_for(msgs, 1000));
+                vclock::disarm();
+                pipeline::set_aux_variant(0);
+                runs.push(r.map(|v| v.iter().map(|x| status_name(x.status).to_string()).collect::<Vec<_>>()).map_err(panic_text));
+            }
+            println!("report: leap status {leap}, update interval {iv} s, reference time {age} ns old, unrelated fields variant {aux}, after a synchronised report and a {} one", c["status_before"]);
+            println!("published statuses: {:?}; the report classifies as {:?}; recorded: {}", runs[0], ref_classify(leap, ib, age).map(status_name), c["published_status"]);
+            if runs[0] != runs[1] {
+                println!("NON-DETERMINISTIC replay");
+                return 2;
             }
             0
         }
